@@ -19,7 +19,8 @@ package c17
 //	HANG <i>                 step i did not complete within the generous ceiling
 //	NOTIMER                  the TASK_RUNNING timer of a basic/hook task did not fire within the ceiling
 //	                         (although no carried-out KILL preceded its position in the schedule)
-//	ALIVE <0|1>              after the schedule: is any process of any child's process group still alive
+//	ALIVE <0|1>              after the schedule: is any process of the task still alive — an announced child, anything
+//	                         in an announced child's process group, anything that inherited the task's environment
 //	DONE
 //
 // A Go panic kills this process; the parent sees the exit status and the trace on stderr.
@@ -31,6 +32,7 @@ import (
 	"fmt"
 	"io"
 	"os"
+	"os/exec"
 	"path/filepath"
 	"strconv"
 	"strings"
@@ -57,6 +59,8 @@ const (
 	envCase = "VH_C17_CASE"
 	envDir  = "VH_C17_DIR"
 	envOCC  = "VH_C17_OCC"
+	// a task child that is the vh binary itself, exec'd directly (command shape `ex`): the value is the behaviour
+	envChild = "VH_C17_CHILD"
 	// generous ceilings: exceeding one is reported, never turned into a verdict by itself
 	stepCeiling = 15 * time.Second
 	killCeiling = 40 * time.Second
@@ -71,6 +75,10 @@ const (
 func init() {
 	if v := os.Getenv(envOCC); v != "" {
 		occMain(v)
+		os.Exit(0)
+	}
+	if v := os.Getenv(envChild); v != "" {
+		childMain(v)
 		os.Exit(0)
 	}
 	if v := os.Getenv(envCase); v != "" {
@@ -249,6 +257,7 @@ type runner struct {
 	dir     string
 	kind    string
 	beh     string
+	shape   string // command shape: sh | sha | ex | exa (see c17.go)
 	taskID  mesos.TaskID
 	envID   uid.ID
 	target  controlcommands.MesosCommandTarget
@@ -291,24 +300,74 @@ func (r *runner) feed(e *executor.Event) bool {
 	return r.waitFor(func() bool { return atomic.LoadInt32(&r.a.decodes) >= k+1 || r.loopEnded() }, stepCeiling)
 }
 
-func script(beh string) string {
+// scriptParts: the child of a basic/hook task (and of a controllable task that never opens its port) as a
+// /bin/sh script, in two parts: head + " " + tail is the script (the tail is what the shape `sha` passes as
+// TaskCommandInfo.Arguments, which prepareTaskCmd joins to the value with single spaces).
+func scriptParts(beh string) (string, []string) {
 	// the index is taken BEFORE the child announces itself: the harness starts the next child only after the
 	// announcement, so no two children can compute the same index
 	pre := `n=$(( $(cat "$C17_DIR/pids" 2>/dev/null | wc -l) + 1 )); echo $$ >> "$C17_DIR/pids"; `
-	wait := `while [ ! -e "$C17_DIR/go.$n" ]; do sleep 0.02; done; `
+	wait := `while [ ! -e "$C17_DIR/go.$n" ]; do sleep 0.02; done;`
 	switch beh {
 	case "ok", "noport":
-		return pre + wait + "exit 0"
+		return pre + wait, []string{"exit", "0"}
 	case "fail":
-		return pre + wait + "exit 3"
+		return pre + wait, []string{"exit", "3"}
 	case "sig":
-		return pre + wait + "kill -KILL $$"
+		return pre + wait, []string{"kill", "-KILL", "$$"}
 	case "fork":
-		return pre + "sleep 300 & " + wait + "exit 0"
+		return pre + "sleep 300 & " + wait, []string{"exit", "0"}
 	}
-	return "exit 0"
+	return "exit", []string{"0"}
 }
 
+func script(beh string) string {
+	h, t := scriptParts(beh)
+	return h + " " + strings.Join(t, " ")
+}
+
+// childMain: the same behaviours as the scripts, as a real binary that is exec'd directly without arguments
+// (command shape `ex`: the vh binary itself, told what to do through its environment).
+func childMain(beh string) {
+	dir := os.Getenv("C17_DIR")
+	b, _ := os.ReadFile(filepath.Join(dir, "pids"))
+	n := strings.Count(string(b), "\n") + 1
+	f, err := os.OpenFile(filepath.Join(dir, "pids"), os.O_APPEND|os.O_CREATE|os.O_WRONLY, 0o644)
+	if err != nil {
+		os.Exit(65)
+	}
+	fmt.Fprintf(f, "%d\n", os.Getpid())
+	f.Close()
+	if beh == "fork" {
+		c := exec.Command("sleep", "300")
+		_ = c.Start() // same process group, outlives us
+	}
+	for {
+		if _, err := os.Stat(filepath.Join(dir, fmt.Sprintf("go.%d", n))); err == nil {
+			break
+		}
+		time.Sleep(20 * time.Millisecond)
+	}
+	switch beh {
+	case "fail":
+		os.Exit(3)
+	case "sig":
+		_ = syscall.Kill(os.Getpid(), syscall.SIGKILL)
+		time.Sleep(time.Minute)
+	}
+	os.Exit(0)
+}
+
+// taskInfo builds the TaskInfo of the one task of the case. The command shape decides how the SAME child
+// behaviour is expressed as a TaskCommandInfo:
+//
+//	sh   shell=true,  value = the whole script / the device binary, no arguments
+//	sha  shell=true,  value = head of the script / the device binary, arguments = the rest (joined by prepareTaskCmd)
+//	ex   shell=false, value = a real binary exec'd directly without arguments (the vh binary in child mode)
+//	exa  shell=false, value = a real binary exec'd directly with arguments (/bin/sh -c <script>; the device binary
+//	     with two arguments it ignores)
+//
+// A command that cannot be started (`nobin`) has no shell form (the shell would start and exit 127): ex / exa only.
 func (r *runner) taskInfo() mesos.TaskInfo {
 	tr, fa := true, false
 	tci := common.TaskCommandInfo{}
@@ -322,18 +381,43 @@ func (r *runner) taskInfo() mesos.TaskInfo {
 		tci.ControlMode = controlmode.DIRECT
 		tci.ControlPort = uint64(r.port)
 	}
+	shell := r.shape == "sh" || r.shape == "sha"
+	args := r.shape == "sha" || r.shape == "exa"
+	tci.Shell = &fa
+	if shell {
+		tci.Shell = &tr
+	}
+	self, _ := os.Executable()
 	switch {
 	case r.beh == "nobin":
 		v := filepath.Join(r.dir, "no-such-binary")
 		tci.Shell, tci.Value = &fa, &v
+		if args {
+			tci.Arguments = []string{"--never", "started"}
+		}
 	case strings.HasPrefix(r.beh, "occ"):
-		self, _ := os.Executable()
 		v := self
-		tci.Shell, tci.Value = &tr, &v
+		tci.Value = &v
+		if args {
+			tci.Arguments = []string{"c17-occ-device", r.beh}
+		}
 		tci.Env = append(tci.Env, envOCC+"="+r.beh+":"+strconv.Itoa(r.port), envCase+"=", envDir+"=")
 	default:
-		v := script(r.beh)
-		tci.Shell, tci.Value = &tr, &v
+		h, t := scriptParts(r.beh)
+		switch r.shape {
+		case "sha":
+			tci.Value, tci.Arguments = &h, t
+		case "ex":
+			v := self
+			tci.Value = &v
+			tci.Env = append(tci.Env, envChild+"="+r.beh, envCase+"=", envDir+"=", envOCC+"=")
+		case "exa":
+			v, sc := "/bin/sh", script(r.beh)
+			tci.Value, tci.Arguments = &v, []string{"-c", sc}
+		default:
+			v := script(r.beh)
+			tci.Value = &v
+		}
 	}
 	data, _ := json.Marshal(&tci)
 	envS := r.envID.String()
@@ -351,36 +435,49 @@ func (r *runner) taskInfo() mesos.TaskInfo {
 	return ti
 }
 
-func (r *runner) pidLines() []int {
-	b, _ := os.ReadFile(filepath.Join(r.dir, "pids"))
-	var out []int
+// pidFile reads the announcements of the children: one line per child, each line the ids the child has to be
+// looked for under (its pid; the fake device adds its process group, which is the wrapping shell's pid when the
+// command runs through a shell).
+func pidFile(dir string) (children int, ids []int) {
+	b, _ := os.ReadFile(filepath.Join(dir, "pids"))
+	seen := map[int]bool{}
 	for _, l := range strings.Split(string(b), "\n") {
-		if p, err := strconv.Atoi(strings.TrimSpace(l)); err == nil && p > 1 {
-			out = append(out, p)
+		any := false
+		for _, f := range strings.Fields(l) {
+			if p, err := strconv.Atoi(f); err == nil && p > 1 {
+				any = true
+				if !seen[p] {
+					seen[p] = true
+					ids = append(ids, p)
+				}
+			}
+		}
+		if any {
+			children++
 		}
 	}
-	return out
+	return children, ids
 }
 
-// groupAlive: is there a non-zombie process whose process group is one of ours.
-func groupAlive(pgids []int) bool {
-	if len(pgids) == 0 {
-		return false
-	}
+func (r *runner) nChildren() int { n, _ := pidFile(r.dir); return n }
+
+// survivors: the live (non-zombie) processes that belong to the task of this case, however the code under test
+// arranged them: a process that IS an announced child, a process whose process GROUP is an announced id (what a
+// child forked stays in its group), and any process that carries the task's environment (C17_DIR=<dir> is set in
+// TaskCommandInfo.Env only, so exactly the task's children and what they forked inherit it). The check does not
+// assume that a child leads a process group of its own. This process and its own group are never counted.
+func survivors(dir string, ids []int) []int {
+	self, selfGrp := os.Getpid(), syscall.Getpgrp()
 	want := map[int]bool{}
-	any := false
-	for _, p := range pgids {
+	for _, p := range ids {
 		want[p] = true
-		if err := syscall.Kill(-p, syscall.Signal(0)); err != syscall.ESRCH {
-			any = true
-		}
 	}
-	if !any {
-		return false // no such groups at all; otherwise look closer (zombies do not count)
-	}
+	marker := "C17_DIR=" + dir
+	var out []int
 	ents, _ := os.ReadDir("/proc")
 	for _, e := range ents {
-		if _, err := strconv.Atoi(e.Name()); err != nil {
+		pid, err := strconv.Atoi(e.Name())
+		if err != nil || pid == self || pid <= 1 {
 			continue
 		}
 		b, err := os.ReadFile("/proc/" + e.Name() + "/stat")
@@ -393,20 +490,40 @@ func groupAlive(pgids []int) bool {
 			continue
 		}
 		f := strings.Fields(s[i+1:])
-		if len(f) < 3 {
+		if len(f) < 3 || f[0] == "Z" || f[0] == "X" {
 			continue
 		}
 		pgrp, _ := strconv.Atoi(f[2])
-		if want[pgrp] && f[0] != "Z" && f[0] != "X" {
-			return true
+		if want[pid] || (pgrp != selfGrp && want[pgrp]) {
+			out = append(out, pid)
+			continue
+		}
+		env, err := os.ReadFile("/proc/" + e.Name() + "/environ")
+		if err != nil || !strings.Contains(string(env), marker) {
+			continue
+		}
+		for _, kv := range strings.Split(string(env), "\x00") {
+			if kv == marker {
+				out = append(out, pid)
+				break
+			}
 		}
 	}
-	return false
+	return out
 }
 
-func killGroups(pgids []int) {
-	for _, p := range pgids {
-		_ = syscall.Kill(-p, syscall.SIGKILL)
+// killAll: SIGKILL for every announced group (never this process's own), every announced pid and every survivor.
+func killAll(dir string) {
+	_, ids := pidFile(dir)
+	self, selfGrp := os.Getpid(), syscall.Getpgrp()
+	for _, p := range ids {
+		if p != selfGrp && p != self {
+			_ = syscall.Kill(-p, syscall.SIGKILL)
+			_ = syscall.Kill(p, syscall.SIGKILL)
+		}
+	}
+	for _, p := range survivors(dir, ids) {
+		_ = syscall.Kill(p, syscall.SIGKILL)
 	}
 }
 
@@ -467,7 +584,7 @@ func (r *runner) message(i int, data []byte, respKind string, spawns bool) stepO
 // childRegistered waits for the pid line of the child that was just spawned.
 func (r *runner) childRegistered() stepOutcome {
 	want := r.started + 1
-	if !r.waitFor(func() bool { return len(r.pidLines()) >= want }, stepCeiling) {
+	if !r.waitFor(func() bool { return r.nChildren() >= want }, stepCeiling) {
 		r.a.say("INCONCLUSIVE child did not register")
 		return stepInconclusive
 	}
@@ -482,17 +599,22 @@ func runnerMain(input, dir string) {
 	a := &agent{events: make(chan *executor.Event), out: bufio.NewWriter(os.Stdout)}
 	logrus.AddHook(logHook{a})
 	in, err := sx.Parse(input)
-	if err != nil || in.Len() != 3 {
+	if err != nil || (in.Len() != 3 && in.Len() != 4) {
 		a.say("INCONCLUSIVE bad input")
 		return
 	}
 	r := &runner{a: a, dir: dir, kind: in.At(0).Str(), beh: in.At(1).Str(),
 		taskID: mesos.TaskID{Value: "task-1"}, envID: uid.New()}
+	r.shape = shapeOf(in)
+	if !validShape(r.kind, r.beh, r.shape) {
+		a.say("INCONCLUSIVE bad command shape")
+		return
+	}
 	r.target = controlcommands.MesosCommandTarget{AgentId: mesos.AgentID{Value: "agent"}, ExecutorId: mesos.ExecutorID{Value: "exec"}, TaskId: r.taskID}
 	if r.kind == "ctl" {
 		r.port = freePort()
 	}
-	defer func() { killGroups(r.pidLines()) }()
+	defer func() { killAll(r.dir) }()
 
 	go func() {
 		err := aliexec.RunEventLoopForVerif(a, a)
@@ -566,12 +688,12 @@ func runnerMain(input, dir string) {
 				if ready {
 					return sawRunning()
 				}
-				return len(r.pidLines()) >= 1
+				return r.nChildren() >= 1
 			}, stepCeiling) {
 				a.say("INCONCLUSIVE controllable child did not come up")
 				return
 			}
-			if len(r.pidLines()) >= 1 {
+			if r.nChildren() >= 1 {
 				r.started = 1
 				r.curMark = a.mark()
 			} else {
@@ -713,16 +835,16 @@ func runnerMain(input, dir string) {
 		}
 	}
 	// survivors: give signals a moment to land, then look
-	pg := r.pidLines()
-	alive := groupAlive(pg)
+	_, ids := pidFile(r.dir)
+	alive := len(survivors(r.dir, ids)) > 0
 	for k := 0; k < 25 && alive; k++ {
 		time.Sleep(20 * time.Millisecond)
-		alive = groupAlive(pg)
+		alive = len(survivors(r.dir, ids)) > 0
 	}
 	sg, _ := os.ReadFile(filepath.Join(r.dir, "sigs"))
 	a.say("SIGS %s", strings.Join(strings.Fields(string(sg)), " "))
 	a.say("ALIVE %s", b01(alive))
 	atomic.StoreInt32(&a.closed, 1)
-	killGroups(pg)
+	killAll(r.dir)
 	a.say("DONE")
 }
